@@ -489,3 +489,12 @@ def r09_11_hebrew_month_kinds(ctx: Ctx) -> RuleResult:
 
         block(f.body, env)
     return rr
+
+
+@rule("C09")
+def r09_cfp_calendar_free_productions(ctx: Ctx) -> RuleResult:
+    from ..retention import check_calendar_free_productions
+
+    rr = RuleResult("R09.cfp", "no calendar-bearing result is assembled from calendar-free pieces (day number, instant, local instant) while a calendar-bearing value is in hand", min_instances=100)
+    check_calendar_free_productions(ctx, rr)
+    return rr
